@@ -685,7 +685,7 @@ func RunOverlay(dir, src, workDir string) (string, error) {
 	// the repository's own toolchain: default go with automatic (offline, cached) switch
 	var clean []string
 	for _, kv := range env {
-		if strings.HasPrefix(kv, "GOTOOLCHAIN=") || strings.HasPrefix(kv, "GOFLAGS=") || strings.HasPrefix(kv, "PATH=") {
+		if strings.HasPrefix(kv, "GOTOOLCHAIN=") || strings.HasPrefix(kv, "GOFLAGS=") || strings.HasPrefix(kv, "PATH=") || strings.HasPrefix(kv, "GOSUMDB=") {
 			continue
 		}
 		clean = append(clean, kv)
